@@ -61,7 +61,59 @@ const nilSlice = "(mk-sl (mk-loc 0 0) 0 0)"
 const nilIface = "(mk-if 0 (mk-loc 0 0))"
 
 // sortOf maps a Go type to its SMT sort; "" for aggregates (struct/tuple).
+// typeParamInts: t is a type parameter whose constraint admits only integer types; signed reports whether
+// all of them are signed. Bodies of generic functions are executed abstractly over such a parameter: its
+// values are integers of unknown width (no wrap-around is modelled, which is sound for safety obligations
+// that do not depend on the width).
+func typeParamInts(t types.Type) (signed bool, ok bool) {
+	tp, isTP := types.Unalias(t).(*types.TypeParam)
+	if !isTP {
+		return false, false
+	}
+	allSigned, any := true, false
+	var walk func(it *types.Interface) bool
+	walk = func(it *types.Interface) bool {
+		for i := 0; i < it.NumEmbeddeds(); i++ {
+			switch e := it.EmbeddedType(i).(type) {
+			case *types.Union:
+				for k := 0; k < e.Len(); k++ {
+					b, isB := e.Term(k).Type().Underlying().(*types.Basic)
+					if !isB || b.Info()&types.IsInteger == 0 {
+						return false
+					}
+					any = true
+					if b.Info()&types.IsUnsigned != 0 {
+						allSigned = false
+					}
+				}
+			default:
+				if ei, isI := e.Underlying().(*types.Interface); isI {
+					if !walk(ei) {
+						return false
+					}
+				} else if b, isB := e.Underlying().(*types.Basic); isB && b.Info()&types.IsInteger != 0 {
+					any = true
+					if b.Info()&types.IsUnsigned != 0 {
+						allSigned = false
+					}
+				} else {
+					return false
+				}
+			}
+		}
+		return true
+	}
+	it, isI := tp.Constraint().Underlying().(*types.Interface)
+	if !isI || !walk(it) || !any {
+		return false, false
+	}
+	return allSigned, true
+}
+
 func sortOf(t types.Type) string {
+	if _, ok := typeParamInts(t); ok {
+		return sInt
+	}
 	switch u := t.Underlying().(type) {
 	case *types.Basic:
 		switch {
